@@ -15,7 +15,7 @@ fn check_short<const N: usize>() {
 
 /// Arbitrary short request paths: never a panic, never accepted (every
 /// acceptable path is at least 13 bytes long).
-// vk: timeout=900; bound=paths of 0..=3 ASCII bytes
+// vk: tier=thorough; timeout=900; bound=paths of 0..=3 ASCII bytes
 #[kani::proof]
 #[kani::unwind(6)]
 fn c16e_request_path_short_3() {
@@ -437,7 +437,7 @@ fn c10a_withdraw_present_uri() { verify_single::<X, 2>(); }
 #[kani::stub(<[u8]>::eq_ignore_ascii_case, crate::verif_fix::eq_ignore_ascii_case_16)]
 fn c10a_publish_present_uri_other_case() { verify_single::<XU, 0>(); }
 
-// vk: timeout=600; unwindset=memcmp.0:33; flags=--no-assertion-reach-checks; bound=current set {x: any of 16 contents}; one update element for a present uri other case, content and stated hash arbitrary (hash of any content or a foreign hash); modelled: Base64::to_hash (collision-free), CurrentObjectUri::from (no fmt), <[u8]>::eq_ignore_ascii_case (loop-free); model map
+// vk: tier=thorough; timeout=600; unwindset=memcmp.0:33; flags=--no-assertion-reach-checks; bound=current set {x: any of 16 contents}; one update element for a present uri other case, content and stated hash arbitrary (hash of any content or a foreign hash); modelled: Base64::to_hash (collision-free), CurrentObjectUri::from (no fmt), <[u8]>::eq_ignore_ascii_case (loop-free); model map
 #[kani::proof]
 #[kani::unwind(5)]
 #[kani::stub(rpki::ca::publication::Base64::to_hash, stub_to_hash)]
@@ -445,7 +445,7 @@ fn c10a_publish_present_uri_other_case() { verify_single::<XU, 0>(); }
 #[kani::stub(<[u8]>::eq_ignore_ascii_case, crate::verif_fix::eq_ignore_ascii_case_16)]
 fn c10a_update_present_uri_other_case() { verify_single::<XU, 1>(); }
 
-// vk: timeout=600; unwindset=memcmp.0:33; flags=--no-assertion-reach-checks; bound=current set {x: any of 16 contents}; one withdraw element for a present uri other case, content and stated hash arbitrary (hash of any content or a foreign hash); modelled: Base64::to_hash (collision-free), CurrentObjectUri::from (no fmt), <[u8]>::eq_ignore_ascii_case (loop-free); model map
+// vk: tier=thorough; timeout=600; unwindset=memcmp.0:33; flags=--no-assertion-reach-checks; bound=current set {x: any of 16 contents}; one withdraw element for a present uri other case, content and stated hash arbitrary (hash of any content or a foreign hash); modelled: Base64::to_hash (collision-free), CurrentObjectUri::from (no fmt), <[u8]>::eq_ignore_ascii_case (loop-free); model map
 #[kani::proof]
 #[kani::unwind(5)]
 #[kani::stub(rpki::ca::publication::Base64::to_hash, stub_to_hash)]
@@ -461,7 +461,7 @@ fn c10a_withdraw_present_uri_other_case() { verify_single::<XU, 2>(); }
 #[kani::stub(<[u8]>::eq_ignore_ascii_case, crate::verif_fix::eq_ignore_ascii_case_16)]
 fn c10a_publish_absent_uri() { verify_single::<Y, 0>(); }
 
-// vk: timeout=600; unwindset=memcmp.0:33; flags=--no-assertion-reach-checks; bound=current set {x: any of 16 contents}; one update element for a absent uri, content and stated hash arbitrary (hash of any content or a foreign hash); modelled: Base64::to_hash (collision-free), CurrentObjectUri::from (no fmt), <[u8]>::eq_ignore_ascii_case (loop-free); model map
+// vk: tier=thorough; timeout=600; unwindset=memcmp.0:33; flags=--no-assertion-reach-checks; bound=current set {x: any of 16 contents}; one update element for a absent uri, content and stated hash arbitrary (hash of any content or a foreign hash); modelled: Base64::to_hash (collision-free), CurrentObjectUri::from (no fmt), <[u8]>::eq_ignore_ascii_case (loop-free); model map
 #[kani::proof]
 #[kani::unwind(5)]
 #[kani::stub(rpki::ca::publication::Base64::to_hash, stub_to_hash)]
@@ -469,7 +469,7 @@ fn c10a_publish_absent_uri() { verify_single::<Y, 0>(); }
 #[kani::stub(<[u8]>::eq_ignore_ascii_case, crate::verif_fix::eq_ignore_ascii_case_16)]
 fn c10a_update_absent_uri() { verify_single::<Y, 1>(); }
 
-// vk: timeout=600; unwindset=memcmp.0:33; flags=--no-assertion-reach-checks; bound=current set {x: any of 16 contents}; one withdraw element for a absent uri, content and stated hash arbitrary (hash of any content or a foreign hash); modelled: Base64::to_hash (collision-free), CurrentObjectUri::from (no fmt), <[u8]>::eq_ignore_ascii_case (loop-free); model map
+// vk: tier=thorough; timeout=600; unwindset=memcmp.0:33; flags=--no-assertion-reach-checks; bound=current set {x: any of 16 contents}; one withdraw element for a absent uri, content and stated hash arbitrary (hash of any content or a foreign hash); modelled: Base64::to_hash (collision-free), CurrentObjectUri::from (no fmt), <[u8]>::eq_ignore_ascii_case (loop-free); model map
 #[kani::proof]
 #[kani::unwind(5)]
 #[kani::stub(rpki::ca::publication::Base64::to_hash, stub_to_hash)]
@@ -485,7 +485,7 @@ fn c10a_withdraw_absent_uri() { verify_single::<Y, 2>(); }
 #[kani::stub(<[u8]>::eq_ignore_ascii_case, crate::verif_fix::eq_ignore_ascii_case_16)]
 fn c10a_publish_foreign_uri() { verify_single::<O, 0>(); }
 
-// vk: timeout=600; unwindset=memcmp.0:33; flags=--no-assertion-reach-checks; bound=current set {x: any of 16 contents}; one update element for a foreign uri, content and stated hash arbitrary (hash of any content or a foreign hash); modelled: Base64::to_hash (collision-free), CurrentObjectUri::from (no fmt), <[u8]>::eq_ignore_ascii_case (loop-free); model map
+// vk: tier=thorough; timeout=600; unwindset=memcmp.0:33; flags=--no-assertion-reach-checks; bound=current set {x: any of 16 contents}; one update element for a foreign uri, content and stated hash arbitrary (hash of any content or a foreign hash); modelled: Base64::to_hash (collision-free), CurrentObjectUri::from (no fmt), <[u8]>::eq_ignore_ascii_case (loop-free); model map
 #[kani::proof]
 #[kani::unwind(5)]
 #[kani::stub(rpki::ca::publication::Base64::to_hash, stub_to_hash)]
@@ -493,7 +493,7 @@ fn c10a_publish_foreign_uri() { verify_single::<O, 0>(); }
 #[kani::stub(<[u8]>::eq_ignore_ascii_case, crate::verif_fix::eq_ignore_ascii_case_16)]
 fn c10a_update_foreign_uri() { verify_single::<O, 1>(); }
 
-// vk: timeout=600; unwindset=memcmp.0:33; flags=--no-assertion-reach-checks; bound=current set {x: any of 16 contents}; one withdraw element for a foreign uri, content and stated hash arbitrary (hash of any content or a foreign hash); modelled: Base64::to_hash (collision-free), CurrentObjectUri::from (no fmt), <[u8]>::eq_ignore_ascii_case (loop-free); model map
+// vk: tier=thorough; timeout=600; unwindset=memcmp.0:33; flags=--no-assertion-reach-checks; bound=current set {x: any of 16 contents}; one withdraw element for a foreign uri, content and stated hash arbitrary (hash of any content or a foreign hash); modelled: Base64::to_hash (collision-free), CurrentObjectUri::from (no fmt), <[u8]>::eq_ignore_ascii_case (loop-free); model map
 #[kani::proof]
 #[kani::unwind(5)]
 #[kani::stub(rpki::ca::publication::Base64::to_hash, stub_to_hash)]
@@ -531,7 +531,7 @@ fn verify_pair<const KIND2: u8>() {
 #[kani::stub(<[u8]>::eq_ignore_ascii_case, crate::verif_fix::eq_ignore_ascii_case_16)]
 fn c10a_pair_publish_then_update() { verify_pair::<1>(); }
 
-// vk: timeout=600; unwindset=memcmp.0:33; flags=--no-assertion-reach-checks; bound=current set {x}; delta = publish(y) + withdraw(x) with arbitrary contents and stated hash; models as above
+// vk: tier=thorough; timeout=600; unwindset=memcmp.0:33; flags=--no-assertion-reach-checks; bound=current set {x}; delta = publish(y) + withdraw(x) with arbitrary contents and stated hash; models as above
 #[kani::proof]
 #[kani::unwind(5)]
 #[kani::stub(rpki::ca::publication::Base64::to_hash, stub_to_hash)]
@@ -560,7 +560,7 @@ fn verify_three<const P: u8>() {
     std::mem::forget((res, objs, delta, jail));
 }
 
-// vk: timeout=600; unwindset=memcmp.0:33; flags=--no-assertion-reach-checks; bound=current set {x, y} with arbitrary contents; delta = publish(occupied URI) + update(x) + withdraw(y) with arbitrary stated hashes; models as above
+// vk: tier=thorough; timeout=600; unwindset=memcmp.0:33; flags=--no-assertion-reach-checks; bound=current set {x, y} with arbitrary contents; delta = publish(occupied URI) + update(x) + withdraw(y) with arbitrary stated hashes; models as above
 #[kani::proof]
 #[kani::unwind(5)]
 #[kani::stub(rpki::ca::publication::Base64::to_hash, stub_to_hash)]
@@ -578,7 +578,7 @@ fn c10a_three_publish_foreign() { verify_three::<O>(); }
 
 /// Applying a (verified) delta does exactly what it says: publish adds,
 /// update replaces, withdraw removes, nothing else changes.
-// vk: timeout=600; unwindset=memcmp.0:33; flags=--no-assertion-reach-checks; bound=current set {x}; deltas publish(y)+update(x) and publish(y)+withdraw(x), arbitrary contents; models as above
+// vk: tier=thorough; timeout=600; unwindset=memcmp.0:33; flags=--no-assertion-reach-checks; bound=current set {x}; deltas publish(y)+update(x) and publish(y)+withdraw(x), arbitrary contents; models as above
 #[kani::proof]
 #[kani::unwind(5)]
 #[kani::stub(rpki::ca::publication::Base64::to_hash, stub_to_hash)]
@@ -662,7 +662,7 @@ fn merge_case<const S: u8, const D: u8>() {
     std::mem::forget(staged);
 }
 
-// vk: timeout=600; unwindset=memcmp.0:33; flags=--no-assertion-reach-checks; bound=one staged element and one new element for the same URI (publish then update), contents arbitrary (16 letters); models: Base64::to_hash collision-free, <[u8]>::eq_ignore_ascii_case loop-free; model map
+// vk: tier=thorough; timeout=600; unwindset=memcmp.0:33; flags=--no-assertion-reach-checks; bound=one staged element and one new element for the same URI (publish then update), contents arbitrary (16 letters); models: Base64::to_hash collision-free, <[u8]>::eq_ignore_ascii_case loop-free; model map
 #[kani::proof]
 #[kani::unwind(5)]
 #[kani::stub(rpki::ca::publication::Base64::to_hash, stub_to_hash)]
@@ -670,13 +670,13 @@ fn merge_case<const S: u8, const D: u8>() {
 #[kani::stub(<[u8]>::eq_ignore_ascii_case, crate::verif_fix::eq_ignore_ascii_case_16)]
 fn c10c_merge_publish_then_update() { merge_case::<1, 1>(); }
 
-// vk: timeout=600; unwindset=memcmp.0:33; flags=--no-assertion-reach-checks; bound=one staged element and one new element for the same URI (publish then withdraw), contents arbitrary (16 letters); models: Base64::to_hash collision-free, <[u8]>::eq_ignore_ascii_case loop-free; model map
+// vk: tier=thorough; timeout=600; unwindset=memcmp.0:33; flags=--no-assertion-reach-checks; bound=one staged element and one new element for the same URI (publish then withdraw), contents arbitrary (16 letters); models: Base64::to_hash collision-free, <[u8]>::eq_ignore_ascii_case loop-free; model map
 #[kani::proof]
 #[kani::unwind(5)]
 #[kani::stub(rpki::ca::publication::Base64::to_hash, stub_to_hash)]
 #[kani::stub(<CurrentObjectUri as core::convert::From<&uri::Rsync>>::from, model_key_from)]
 #[kani::stub(<[u8]>::eq_ignore_ascii_case, crate::verif_fix::eq_ignore_ascii_case_16)]
-fn x10c_merge_publish_then_withdraw() { merge_case::<1, 2>(); }
+fn c10c_merge_publish_then_withdraw() { merge_case::<1, 2>(); }
 
 // vk: tier=thorough; timeout=600; unwindset=memcmp.0:33; flags=--no-assertion-reach-checks; bound=one staged element and one new element for the same URI (update then update), contents arbitrary (16 letters); models: Base64::to_hash collision-free, <[u8]>::eq_ignore_ascii_case loop-free; model map
 #[kani::proof]
@@ -692,7 +692,7 @@ fn c10c_merge_update_then_update() { merge_case::<2, 1>(); }
 #[kani::stub(rpki::ca::publication::Base64::to_hash, stub_to_hash)]
 #[kani::stub(<CurrentObjectUri as core::convert::From<&uri::Rsync>>::from, model_key_from)]
 #[kani::stub(<[u8]>::eq_ignore_ascii_case, crate::verif_fix::eq_ignore_ascii_case_16)]
-fn x10c_merge_update_then_withdraw() { merge_case::<2, 2>(); }
+fn c10c_merge_update_then_withdraw() { merge_case::<2, 2>(); }
 
 // vk: timeout=600; unwindset=memcmp.0:33; flags=--no-assertion-reach-checks; bound=one staged element and one new element for the same URI (withdraw then publish), contents arbitrary (16 letters); models: Base64::to_hash collision-free, <[u8]>::eq_ignore_ascii_case loop-free; model map
 #[kani::proof]
@@ -708,7 +708,7 @@ fn c10c_merge_withdraw_then_publish() { merge_case::<3, 0>(); }
 // previous serial can apply it only if every update/withdraw in it states the
 // hash of what the previous snapshot holds.  Same harness bodies as C10(c).
 
-// vk: timeout=600; unwindset=memcmp.0:33; flags=--no-assertion-reach-checks; bound=one staged element and one new element for the same URI (update then update), contents arbitrary (16 letters); models: Base64::to_hash collision-free, <[u8]>::eq_ignore_ascii_case loop-free; model map
+// vk: tier=thorough; timeout=600; unwindset=memcmp.0:33; flags=--no-assertion-reach-checks; bound=one staged element and one new element for the same URI (update then update), contents arbitrary (16 letters); models: Base64::to_hash collision-free, <[u8]>::eq_ignore_ascii_case loop-free; model map
 #[kani::proof]
 #[kani::unwind(5)]
 #[kani::stub(rpki::ca::publication::Base64::to_hash, stub_to_hash)]
@@ -737,7 +737,7 @@ fn delta_with(serial: u64, big: bool) -> DeltaData {
 /// size does not exceed the snapshot size - never a delta behind one that
 /// was dropped, so the retained serials stay a contiguous run ending at the
 /// current serial.
-// vk: timeout=900; unwindset=memcmp.0:33; flags=--no-assertion-reach-checks; bound=3 deltas (serials 5,4,3), each small (3) or big (12) chosen by the solver, snapshot of one object of size 12; model map
+// vk: tier=thorough; timeout=1500; unwindset=memcmp.0:33; flags=--no-assertion-reach-checks; bound=3 deltas (serials 5,4,3), each small (3) or big (12) chosen by the solver, snapshot of one object of size 12; model map
 #[kani::proof]
 #[kani::unwind(6)]
 fn x11e_size_truncation_keeps_prefix() {
